@@ -9,9 +9,12 @@
     `CMutableTransaction(vin_obj, vout_obj, …)` → `self.vin = vin` etc. (core/__init__.py:477-488):
        the new transaction object refers to the very sequences it was given;
     `witness=None`          → `CTxWitness([CTxInWitness() for dummy in range(len(vin))])`: an object
-       of the immutable class `CTxWitness` whose `vtxinwit` is a fresh Python **list** (`isMut = true`
-       on the `.seq .stacks` object).  No operation of the catalogue writes a `.seq .stacks` object
-       (list edits of `wit.vtxinwit` are outside the property's catalogue).
+       of the immutable class `CTxWitness`.  The model is PROPERTY-CONFORMING here (audit 2, D23): an
+       immutable-class object never refers to a mutable object or to a Python list, i.e. the
+       constructors freeze what they are given — `CTxWitness.__init__` stores `tuple(vtxinwit)`,
+       `CScriptWitness.__init__` `tuple(stack)`, `CTxIn.__init__` `COutPoint.from_outpoint(prevout)`.
+       Hence `w.vtxinwit[i] = …`, `.append`, `stack[j] = …` raise TypeError/AttributeError, and an
+       outpoint object handed to `CTxIn(…)` is not shared with the new input.
   An operation whose source object is not of the class the slot/list holds is outside the catalogue
   (`na`): Python would store it, and every later `serialize()` would raise.  Mathlib-free.
 -/
@@ -25,7 +28,7 @@ def kindAt (h : Heap) (a : Addr) : Option Nat := (h[a]?).map (·.sc.kind)
 
 /-- `CTxWitness([CTxInWitness() for dummy in range(n)])` -/
 def allocDefaultWit (h : Heap) (n : Nat) : Heap × Addr :=
-  allocPlan h (.node false .wit [.node true (.seq .stacks) (List.replicate n (.node false (.inwit []) []))])
+  allocPlan h (.node false .wit [.node false (.seq .stacks) (List.replicate n (.node false (.inwit []) []))])
 
 /-- store into a list object at an address: a tuple raises `immErr` -/
 def withListAt (s : St) (x : Addr) (immErr : Exc) (f : List Addr → Except Exc (List Addr)) : St × Out :=
@@ -130,6 +133,42 @@ def stepX (s : St) : OpX → St × Out
           let a := alloc p.1 { isMut := true, sc := .txin script seq, refs := [p.2] }
           (s.bind a.1 (some a.2), .created)
         else (s.skip, .err .valueerr)
+  | .newCTxInFrom prevout script seq =>
+      match prevout.map s.target with
+      | some none => (s.skip, .badRef)
+      | some (some ap) =>
+        if kindAt s.heap ap ≠ some 0 then (s.skip, .na)
+        else if seq ≤ 0xffffffff then
+          match s.heap[ap]?, absVal s.heap ap with
+          | some o, some (.outpoint v) =>
+            if !o.isMut || validOutPoint v then
+              -- `COutPoint.from_outpoint(prevout)`: an immutable outpoint as is, a mutable one copied
+              match planClone false D s.heap ap with
+              | some p =>
+                let a := allocPlan s.heap (.node false (.txin script seq) [p])
+                (s.bind a.1 (some a.2), .created)
+              | none => (s.skip, .badRef)
+            else (s.skip, .err .valueerr)
+          | _, _ => (s.skip, .badRef)
+        else (s.skip, .err .valueerr)
+      | none =>
+        if seq ≤ 0xffffffff then
+          let a := allocPlan s.heap
+            (planTxIn false { prevout := ⟨List.replicate 32 0, 0xffffffff⟩, scriptSig := script, nSequence := seq })
+          (s.bind a.1 (some a.2), .created)
+        else (s.skip, .err .valueerr)
+  | .witListEdit t i _ =>
+      match s.target t with
+      | none => (s.skip, .badRef)
+      | some x =>
+        if kindAt s.heap x ≠ some 4 then (s.skip, .na)
+        else (s.skip, .err (if i.isSome then typeError else attributeError))
+  | .stackEdit t j _ =>
+      match s.target t with
+      | none => (s.skip, .badRef)
+      | some x =>
+        if kindAt s.heap x ≠ some 3 then (s.skip, .na)
+        else (s.skip, .err (if j.isSome then typeError else attributeError))
 
 def runX : St → List OpX → St × List Out
   | s, [] => (s, [])
